@@ -119,6 +119,12 @@ const _: () = {
             percent_decode_utf8(bytes)
                 .map_err(|_| crate::Response::BadRequest())?;
 
+            // `Deref<Target = str>` / `AsRef<str>` `expect` that the path as it
+            // was sent is UTF-8, too. That does not follow from the above:
+            // `/\xE4%B8%80` decodes to `/一` but is not UTF-8 itself
+            std::str::from_utf8(bytes)
+                .map_err(|_| crate::Response::BadRequest())?;
+
             /*
             Strip trailing '/' **even when `bytes` is just `b"/"`**
             (then the bytes become b"" (empty bytes)).
